@@ -3,6 +3,7 @@ package core
 import (
 	"fmt"
 	"math/rand"
+	"strings"
 	"sync"
 	"time"
 
@@ -161,6 +162,28 @@ func singletonObservations(r *Run, o *Obs) (perReg map[int]int) {
 
 func runC01(c *eng.Ctx) {
 	cr := &caseRunner{c: c, prop: "C01"}
+	defer func() {
+		// singleton registrations whose constructors are distinct function values sharing code
+		// (closures of one literal, method values, reflect.MakeFunc): each key must be served by
+		// the output of ITS constructor
+		for _, fk := range funcKindCases {
+			idx, mine := cr.next()
+			if !mine {
+				continue
+			}
+			c.R.Begin(idx)
+			fs, n := fk.run()
+			for _, f := range fs {
+				if !strings.Contains(f.Detail, "(singleton)") {
+					continue
+				}
+				c.R.Violation(eng.Violation{Prop: "C01", Clause: "identity", Sig: "C01/identity:singleton:function-value-kind:" + fk.name, Case: idx, CaseID: "funckind-" + fk.name,
+					Detail: "singleton registrations whose constructors share code: " + f.Detail})
+			}
+			c.R.Count("function_value_kind_resolutions", int64(n))
+			c.R.End(idx, eng.Hash("c01-funckind", fk.name), n > 0)
+		}
+	}()
 	finish := func(idx int, r *Run, kind string) {
 		o := Digest(r)
 		report(c, "C01", idx, r, MonC01(r, o))
